@@ -295,6 +295,14 @@ def handle : List Sx → Sx
         | .error e => rejSx e               -- the operation as a whole raises
         | .ok _ => .list [outSx (.ok r), dsx]
     | _, _, _, _, _, _ => err "drule"
+  | [.atom "nary", .atom fn, .list us] =>
+    match us.mapM parseOU with
+    | some us =>
+      let r := if fn == "stack" then stackN us else fromScalarsN us
+      match r with
+      | .error e => rejSx e
+      | .ok u => .list [.atom "units", ouSx u]
+    | none => err "operand"
   | [.atom "scale", .atom dir, top, .list ds] =>
     -- into_units / from_units: factor applied to the object and to each derivative
     match parseOU top, ds.mapM parseOU with
